@@ -25,13 +25,16 @@ fn run_skip<const H: usize>(doc: &Value, log: &Arc<Mutex<Vec<Value>>>, seq: &Arc
                 "mixed" => { let n = mine.len(); for i in 0..n / 2 { if i % 2 == 0 { mine.swap(i, n - 1 - i); } } }
                 _ => {}
             }
+            // events are kept per thread (no shared lock between operations) and merged by their stamps
+            let mut local = vec![];
             for k in mine {
                 let n = seq.fetch_add(1, Ordering::SeqCst);
-                log.lock().unwrap().push(json!({"n": n, "ev": "ib", "k": k}));
+                local.push(json!({"n": n, "ev": "ib", "k": k}));
                 sl.insert(k, k * 10);
                 let n = seq.fetch_add(1, Ordering::SeqCst);
-                log.lock().unwrap().push(json!({"n": n, "ev": "ie", "k": k}));
+                local.push(json!({"n": n, "ev": "ie", "k": k}));
             }
+            log.lock().unwrap().extend(local);
             finished.fetch_add(1, Ordering::SeqCst);
         }));
     }
@@ -40,6 +43,7 @@ fn run_skip<const H: usize>(doc: &Value, log: &Arc<Mutex<Vec<Value>>>, seq: &Arc
         handles.push(std::thread::spawn(move || {
             let mut x = 0x9E3779B97F4A7C15u64 ^ (r + 7);
             let mut rounds = 0;
+            let mut local = vec![];
             while (stop.load(Ordering::SeqCst) == 0 && rounds < 400) || rounds < 3 {
                 rounds += 1;
                 std::thread::yield_now();
@@ -84,10 +88,10 @@ fn run_skip<const H: usize>(doc: &Value, log: &Arc<Mutex<Vec<Value>>>, seq: &Arc
                 ev["n"] = json!(n1);
                 ev["begin"] = json!(n0);
                 ev["r"] = json!(r + 1);
-                let mut l = log.lock().unwrap();
-                l.push(json!({"n": n0, "ev": "rb", "r": r + 1}));
-                l.push(ev);
+                local.push(json!({"n": n0, "ev": "rb", "r": r + 1}));
+                local.push(ev);
             }
+            log.lock().unwrap().extend(local);
         }));
     }
     let start = std::time::Instant::now();
@@ -150,22 +154,23 @@ fn run_list(doc: &Value, log: &Arc<Mutex<Vec<Value>>>, seq: &Arc<AtomicU64>) -> 
     for t in 0..threads {
         let (list, log, seq) = (Arc::clone(&list), Arc::clone(log), Arc::clone(seq));
         handles.push(std::thread::spawn(move || {
+            let mut local = vec![];
             for i in 0..per {
                 let v = t * 1000 + i + 1;
                 let n = seq.fetch_add(1, Ordering::SeqCst);
-                log.lock().unwrap().push(json!({"n": n, "ev": "ib", "k": v}));
+                local.push(json!({"n": n, "ev": "ib", "k": v}));
                 list.prepend(v);
                 let n = seq.fetch_add(1, Ordering::SeqCst);
-                log.lock().unwrap().push(json!({"n": n, "ev": "ie", "k": v}));
+                local.push(json!({"n": n, "ev": "ie", "k": v}));
                 if i % 3 == 0 {
                     let n0 = seq.fetch_add(1, Ordering::SeqCst);
                     let ks: Vec<u64> = list.iter().copied().collect();
                     let n1 = seq.fetch_add(1, Ordering::SeqCst);
-                    let mut l = log.lock().unwrap();
-                    l.push(json!({"n": n0, "ev": "rb", "r": t + 1}));
-                    l.push(json!({"n": n1, "ev": "liter", "r": t + 1, "keys": ks}));
+                    local.push(json!({"n": n0, "ev": "rb", "r": t + 1}));
+                    local.push(json!({"n": n1, "ev": "liter", "r": t + 1, "keys": ks}));
                 }
             }
+            log.lock().unwrap().extend(local);
         }));
     }
     for h in handles { let _ = h.join(); }
@@ -180,6 +185,7 @@ pub fn main(args: &[String]) -> ! {
     let doc: Value = serde_json::from_str(&std::fs::read_to_string(&args[0]).unwrap()).unwrap();
     inflight(&doc);
     skipfree::verif::set_yield_seed(doc["yield_seed"].as_u64().unwrap_or(0));
+    listfree::verif::set_yield_seed(doc["yield_seed"].as_u64().unwrap_or(0));
     let seq = Arc::new(AtomicU64::new(1));
     let log = Arc::new(Mutex::new(Vec::<Value>::new()));
     let hung = match (doc["kind"].as_str().unwrap_or("skip"), doc["height"].as_u64().unwrap_or(2)) {
